@@ -28,6 +28,7 @@ type urlDecl struct {
 	scheme, host, hostname, path, rawquery, fragment *Term
 	hostLit, portPart                                *Term // host == hostLit ++ portPart when known (declared URLs)
 	port                                             *Term // Port() when declared directly (DeclareURL)
+	folded                                           bool  // declared by zz.DeclareURLFolded: the text is NOT the canonical concatenation (string equality is not component-wise)
 	synth                                            bool  // produced by (*URL).String() of a structured URL (scheme already lower-case)
 }
 
@@ -44,7 +45,7 @@ func (m *Machine) strEq(a, b *Term) *Term {
 		return mkEq(a, b)
 	}
 	da, db := m.urls[a.String()], m.urls[b.String()]
-	if da == nil || db == nil || (da.synth && db.synth) {
+	if da == nil || db == nil || (da.synth && db.synth) || da.folded || db.folded {
 		return mkEq(a, b)
 	}
 	hostEq := mkEq(da.host, db.host)
@@ -122,6 +123,17 @@ func init() {
 	// DeclareURLParts(raw, scheme, hostLit, portPart, path, rawquery, fragment): raw is exactly
 	//   [scheme "://" | "//" when scheme is ""] hostLit portPart path ["?" rawquery] ["#" fragment]
 	// hostLit a registered name or a bracketed IPv6 literal, portPart "" or ":" digits*.
+	// DeclareURLFolded(raw, scheme, hostLit, portPart, path, rawquery, fragment): raw PARSES to these components
+	// but is not their canonical concatenation (user info, a needless escape, an empty "#" or "?"): the parse is
+	// the components (User / RawPath / ForceQuery are not represented), string equality stays textual.
+	zzAPI["DeclareURLFolded"] = func(fr *frame, a []value) value {
+		m := fr.i.m
+		hostLit, portPart := strArg(a[2]), strArg(a[3])
+		m.declareURL(strArg(a[0]), &urlDecl{scheme: strArg(a[1]), host: mkConcat(hostLit, portPart), hostname: stripBrackets(hostLit), hostLit: hostLit, portPart: portPart,
+			path: strArg(a[4]), rawquery: strArg(a[5]), fragment: strArg(a[6]), folded: true})
+		m.note("folded URLs: a text that url.Parse maps to the declared components without being their canonical concatenation (checked against net/url on every native replay); User, RawPath and ForceQuery of the parse are not represented")
+		return nil
+	}
 	zzAPI["DeclareURLParts"] = func(fr *frame, a []value) value {
 		m := fr.i.m
 		hostLit, portPart := strArg(a[2]), strArg(a[3])
